@@ -54,14 +54,17 @@ SASL_VARIANTS = [
 AUTHMECHS = [None, "PLAIN", "LOGIN", "OAUTHBEARER", "X-UNKNOWN", "DIGEST-MD5"]
 FAULTS = [None] + \
     [("greeting", k) for k in ("refuse", "bye", "no", "silent", "close", "garbage", "nook", "bye-referral")] + \
-    [("starttls", k) for k in ("NO", "BYE", "silent", "close", "inject", "BYE-referral")] + \
+    [("starttls", k) for k in ("NO", "BYE", "silent", "close", "inject", "BYE-referral", "NO-reassuring")] + \
     [("tls", k) for k in ("sslerror", "certerror", "timeout", "eof")] + \
     [("postcaps", k) for k in ("bye", "no", "silent", "close", "garbage", "nook", "badline-utf8", "badline-blank", "late", "late+badpw")] + \
     [("authenticate", k) for k in ("NO", "BYE", "silent", "close", "BYE-referral")] + \
     [("verdict", k) for k in ("NO", "BYE", "badpw", "NO-sasl", "BYE-referral")]
 SECOND = ["refuse", "badpw", "ok", "greeting-close"]
 ST_VALUES = [False, True, 1, "required"]      # the starttls argument: 1 / "required" = truthy values that are not the True singleton
-KIND = {"NO": F_NO, "BYE": F_BYE, "silent": F_SILENT, "close": F_CLOSE, "BYE-referral": F_BYE, "NO-sasl": F_NO}
+KIND = {"NO": F_NO, "BYE": F_BYE, "silent": F_SILENT, "close": F_CLOSE, "BYE-referral": F_BYE, "NO-sasl": F_NO, "NO-reassuring": F_NO}
+# refusals of STARTTLS whose wording invites a client to carry on regardless
+REASSURING = [b"TLS already active", b"TLS is already active", b"already secured", b"OK", b"not needed: the connection is secure",
+              b"STARTTLS completed", b"success"]
 
 
 def all_cells():
@@ -150,6 +153,19 @@ class Hooks:
             if self.fault[1] == "inject":
                 self.world.server.inject_after_starttls = True
                 return None
+            if self.fault[1] == "NO-reassuring":
+                srv = self.world.server
+                with srv.ch.abs_scope(scope):
+                    text = srv.ch.srv.pick("reassuring", REASSURING)
+                    lit = srv.ch.srv.flag("reassuring.lit", 1, 3)
+                once = [False]
+
+                def shape(status, code, t, sc):
+                    if status == b"NO" and not once[0]:
+                        once[0] = True
+                        return None, text, lit
+                    return None
+                srv.shape_hook = shape
             return KIND[self.fault[1]]
         if self.fault is not None and self.fault[1].endswith("referral"):
             self.world.server.bye_with_referral = True
